@@ -1,4 +1,4 @@
-(* Text/Example.v -- model of `file::expand_macro(s)` (src/file.rs, with the fixes dup-attr and late-import applied) over a list of top-level items,
+(* Text/Example.v -- model of `file::expand_macro(s)` (src/file.rs, with the fixes dup-attr and late-import applied; src/use_macro.rs with crate-alias) over a list of top-level items,
    and of the file-system footprint of `write::example_show` (src/write.rs:18-135).
 
    A source file is a list of items
@@ -211,13 +211,14 @@ Proof. reflexivity. Qed.
 
 Lemma prescan_gen : forall mac file u, um_mac u = mac ->
   fold_left (fun u it => match it with IUse _ t => fst (update u t) | _ => u end) file u =
-  {| um_mac := mac; um_imp := um_imp u ++ flat_map (upd_names mac) (uses_of file) |}.
+  {| um_mac := mac; um_imp := um_imp u ++ flat_map (upd_names mac) (uses_of file);
+     um_alias := um_alias u ++ flat_map (aliases mac) (uses_of file) |}.
 Proof.
   intros mac file. induction file as [|it r IH]; intros u M.
-  - simpl. rewrite app_nil_r. destruct u; simpl in *; subst; reflexivity.
+  - simpl. rewrite !app_nil_r. destruct u; simpl in *; subst; reflexivity.
   - destruct it as [a b | a t | a x | x]; cbn [fold_left].
     + rewrite uses_of_impl. apply IH; exact M.
-    + rewrite uses_of_use, IH by (rewrite update_eq; simpl; exact M). rewrite update_eq. cbn [fst um_imp flat_map]. rewrite M, app_assoc. reflexivity.
+    + rewrite uses_of_use, IH by (rewrite update_eq; simpl; exact M). rewrite update_eq. cbn [fst um_imp um_alias flat_map]. rewrite M, !app_assoc. reflexivity.
     + rewrite uses_of_other. apply IH; exact M.
     + rewrite uses_of_verb. apply IH; exact M.
 Qed.
@@ -227,25 +228,30 @@ Proof. intros. unfold prescan, track. rewrite (prescan_gen mac) by reflexivity. 
 
 Lemma next_state : forall mac f1 u ue, um_mac u = mac ->
   fst (fold_left (fun s it => next (fst s) (snd s) it) f1 (u, ue)) =
-  {| um_mac := mac; um_imp := um_imp u ++ flat_map (upd_names mac) (uses_of f1) |}.
+  {| um_mac := mac; um_imp := um_imp u ++ flat_map (upd_names mac) (uses_of f1);
+     um_alias := um_alias u ++ flat_map (aliases mac) (uses_of f1) |}.
 Proof.
   intros mac f1. induction f1 as [|it r IH]; intros u ue M.
-  - simpl. rewrite app_nil_r. destruct u; simpl in *; subst; reflexivity.
+  - simpl. rewrite !app_nil_r. destruct u; simpl in *; subst; reflexivity.
   - destruct it as [a b | a t | a x | x]; cbn [fold_left next fst snd].
     + rewrite uses_of_impl. apply IH; exact M.
     + rewrite uses_of_use, update_eq. destruct (snd (fsu (um_mac u) t)); rewrite IH by exact M;
-        cbn [um_imp flat_map]; rewrite M, app_assoc; reflexivity.
+        cbn [um_imp um_alias flat_map]; rewrite M, !app_assoc; reflexivity.
     + rewrite uses_of_other. apply IH; exact M.
     + rewrite uses_of_verb. apply IH; exact M.
 Qed.
 
-Lemma is_mac_incl : forall mac a b p, incl b a ->
-  is_mac {| um_mac := mac; um_imp := a ++ b |} p = is_mac {| um_mac := mac; um_imp := a |} p.
+Lemma existsb_app_incl : forall (f : string -> bool) a b, incl b a -> existsb f (a ++ b) = existsb f a.
 Proof.
-  intros mac a b p I. unfold is_mac. cbn [um_mac um_imp]. destruct (lead p); auto. f_equal. rewrite existsb_app.
-  set (f := fun n => list_eqb [n] (segs p)).
-  destruct (existsb f b) eqn:E; [|apply orb_false_r].
+  intros f a b I. rewrite existsb_app. destruct (existsb f b) eqn:E; [|apply orb_false_r].
   rewrite (existsb_seteq f b a I E). reflexivity.
+Qed.
+
+Lemma is_mac_incl : forall mac a b c d p, incl b a -> incl d c ->
+  is_mac {| um_mac := mac; um_imp := a ++ b; um_alias := c ++ d |} p = is_mac {| um_mac := mac; um_imp := a; um_alias := c |} p.
+Proof.
+  intros mac a b c d p I J. unfold is_mac. cbn [um_mac um_imp um_alias]. destruct (lead p); auto.
+  rewrite (existsb_app_incl _ a b I), (existsb_app_incl _ c d J). reflexivity.
 Qed.
 
 (* at every point of the pass the macro is recognised exactly as after ALL the `use` items of the file,
@@ -256,19 +262,29 @@ Theorem state_constant : forall mac f1 f2 ue p,
 Proof.
   intros mac f1 f2 ue p. simpl. rewrite prescan_track. rewrite (next_state mac) by apply track_all.
   destruct (track_all mac (uses_of (f1 ++ f2))) as [M _].
-  assert (T : track mac (uses_of (f1 ++ f2)) = {| um_mac := mac; um_imp := um_imp (track mac (uses_of (f1 ++ f2))) |})
+  assert (T : track mac (uses_of (f1 ++ f2)) = {| um_mac := mac; um_imp := um_imp (track mac (uses_of (f1 ++ f2)));
+                                                   um_alias := um_alias (track mac (uses_of (f1 ++ f2))) |})
     by (destruct (track mac (uses_of (f1 ++ f2))); simpl in *; subst; reflexivity).
-  rewrite T at 2. apply is_mac_incl.
-  unfold track. rewrite track_gen. simpl. unfold uses_of. rewrite flat_map_app', flat_map_app'.
-  intros n I. apply in_or_app. left. exact I.
+  rewrite T at 3. apply is_mac_incl.
+  - unfold track. rewrite track_gen. simpl. unfold uses_of. rewrite flat_map_app', flat_map_app'.
+    intros n I. apply in_or_app. left. exact I.
+  - unfold track. rewrite track_gen. simpl. unfold uses_of. rewrite flat_map_app', flat_map_app'.
+    intros n I. apply in_or_app. left. exact I.
 Qed.
 
 (* hence: an attribute path that denotes the macro w.r.t. all the `use` items of the file is recognised wherever the
-   impl stands, crate-alias paths excepted *)
+   impl stands, crate-alias paths included (the macro is not called `interthread` or `self`: true of actor, family, example) *)
 Corollary denoted_is_recognised : forall mac f1 f2 ue p,
+  (mac =? INTERTHREAD) = false -> (mac =? "self") = false ->
+  denotes mac (uses_of (f1 ++ f2)) p = true ->
+  is_mac (fst (fold_left (fun s it => next (fst s) (snd s) it) f1 (prescan mac (f1 ++ f2), ue))) p = true.
+Proof. intros mac f1 f2 ue p NI NS D. rewrite state_constant. apply is_complete; assumption. Qed.
+
+(* the former statement, without hypothesis on the macro name but for non-alias paths only *)
+Corollary denoted_is_recognised_guarded : forall mac f1 f2 ue p,
   alias_path p = false -> denotes mac (uses_of (f1 ++ f2)) p = true ->
   is_mac (fst (fold_left (fun s it => next (fst s) (snd s) it) f1 (prescan mac (f1 ++ f2), ue))) p = true.
-Proof. intros. rewrite state_constant. apply is_complete_guarded; assumption. Qed.
+Proof. intros mac f1 f2 ue p K D. rewrite state_constant. apply is_complete_guarded; assumption. Qed.
 
 End Example.
 
@@ -331,14 +347,22 @@ Example reimport_abs_fixed :
   = [IImpl [] "A"; IVerb "gen:actor:a1:A"; IVerb "gen:actor:a2:A"; IImpl [] "B"; IVerb "gen:actor:a3:B"].
 Proof. vm_compute. reflexivity. Qed.
 
-(* still open: use interthread as it; #[it::actor] impl C  is copied unexpanded *)
-Lemma crate_alias_file_refuted : exists file : list titem, exists p,
+(* use interthread as it; #[it::actor] impl C : expanded, the import of the crate stays (was: crate_alias_file_refuted, same witness,
+   whose last conjunct was `has_annotated (t_expand ["actor"] file) p = true`) *)
+Example crate_alias_file_fixed :
+  let file : list titem := [IUse [] (URename "interthread" "it"); IImpl [at_ false ["it"; "actor"] "a1"] "C"] in
+  let p := ap false ["it"; "actor"] in
   denotes "actor" (all_uses file) p = true /\ alias_path p = true /\ has_annotated file p = true /\
-  has_annotated (t_expand ["actor"] file) p = true.
-Proof.
-  exists [IUse [] (URename "interthread" "it"); IImpl [at_ false ["it"; "actor"] "a1"] "C"]. exists (ap false ["it"; "actor"]).
-  vm_compute. auto.
-Qed.
+  has_annotated (t_expand ["actor"] file) p = false /\
+  t_expand ["actor"] file = [IUse [] (URename "interthread" "it"); IImpl [] "C"; IVerb "gen:actor:a1:C"].
+Proof. vm_compute. repeat split. Qed.
+
+(* #[it::actor] impl C  #[it::family] impl D  use interthread::{self as it};  with expand(actor, family): both expanded, the import follows *)
+Example crate_alias_self_fixed :
+  t_expand ["actor"; "family"] [IImpl [at_ false ["it"; "actor"] "a1"] "C"; IImpl [at_ false ["it"; "family"] "f1"] "D";
+                                IUse [] (UPath "interthread" (UGroup [URename "self" "it"]))]
+  = [IImpl [] "C"; IVerb "gen:actor:a1:C"; IImpl [] "D"; IVerb "gen:family:f1:D"; IUse [] (UPath "interthread" (UGroup [URename "self" "it"]))].
+Proof. vm_compute. reflexivity. Qed.
 
 (* actor and family on one impl, imported through a group with an alias *)
 Example shape_example :
